@@ -25,8 +25,8 @@ type queueW struct {
 
 func newQueue(f []string) world {
 	c := atoi(f[0])
-	if c < 1 {
-		panic("capacity must be positive")
+	if c < 0 || c > 1<<20 {
+		panic("capacity out of the range the harness constructs")
 	}
 
 	return &queueW{q: queue.New[int](c), cap: c}
@@ -60,6 +60,15 @@ func (w *queueW) exec(r *hx.Run, f []string) (string, string) {
 		return line, strconv.FormatBool(ok)
 	case "force":
 		x := atoi(f[1])
+		if w.cap == 0 {
+			// capacity 0 is outside the property ("capacities > 0"); what the code does is mirrored by the
+			// model: ForceOffer indexes the empty buffer and panics before changing anything
+			if p := hx.Safely(func() { w.q.ForceOffer(x) }); p != "" {
+				return line, "panic"
+			}
+
+			return line, "no-panic"
+		}
 		v, removed := w.q.ForceOffer(x)
 		wantRemoved := len(w.ref) == w.cap
 		wv := 0
@@ -102,7 +111,11 @@ func (w *queueW) exec(r *hx.Run, f []string) (string, string) {
 }
 
 func genQueue(rng *hx.Rng, n int) []string {
-	ops := []string{fmt.Sprintf("queue new %d", rng.Range(1, 4))}
+	c := rng.Range(1, 4)
+	if rng.Chance(1, 20) { // unusual but legal capacities: 0 (drops everything) and a large one
+		c = hx.Pick(rng, []int{0, 0, 1 << 16})
+	}
+	ops := []string{fmt.Sprintf("queue new %d", c)}
 	next := 1
 	for i := 0; i < n; i++ {
 		var op string
@@ -141,8 +154,8 @@ type ringW struct {
 
 func newRing(f []string) world {
 	c := atoi(f[0])
-	if c < 1 {
-		panic("capacity must be positive")
+	if c < 0 || c > 1<<20 {
+		panic("capacity out of the range the harness constructs")
 	}
 
 	return &ringW{b: ringbuffer.NewRingBuffer[int](c), cap: c}
@@ -155,6 +168,14 @@ func (w *ringW) exec(r *hx.Run, f []string) (string, string) {
 	switch f[0] {
 	case "add":
 		x := atoi(f[1])
+		if w.cap == 0 {
+			// capacity 0: Add indexes the empty buffer and panics before changing anything (mirrored)
+			if p := hx.Safely(func() { w.b.Add(x) }); p != "" {
+				return line, "panic"
+			}
+
+			return line, "no-panic"
+		}
 		ok := w.b.Add(x)
 		w.hist = append(w.hist, x)
 		if !ok {
@@ -182,7 +203,11 @@ func (w *ringW) exec(r *hx.Run, f []string) (string, string) {
 }
 
 func genRing(rng *hx.Rng, n int) []string {
-	ops := []string{fmt.Sprintf("ring new %d", rng.Range(1, 4))}
+	c := rng.Range(1, 4)
+	if rng.Chance(1, 20) { // unusual but legal capacities: 0 (always empty) and a large one
+		c = hx.Pick(rng, []int{0, 0, 1 << 16})
+	}
+	ops := []string{fmt.Sprintf("ring new %d", c)}
 	next := 1
 	for i := 0; i < n; i++ {
 		if rng.Chance(65, 100) {
